@@ -78,6 +78,9 @@ LANGS = {
     "markdown": dict(suffixes=["md", "markdown"],
                      forms=[Form("md-paren", "line", "[//]: # (", ")", forbid=("(", ")"), col0=True, blank_around=True, family="md"),
                             Form("md-dquote", "line", '[//]: # "', '"', forbid=('"',), col0=True, blank_around=True, family="md"),
+                            # the link destination need not be `#`: any non-blank text, ASCII or not
+                            Form("md-paren-uni", "line", "[//]: \u00a7\u00e9 (", ")", forbid=("(", ")"), col0=True, blank_around=True, family="md"),
+                            Form("md-dquote-angle", "line", '[//]: <#caf\u00e9> "', '"', forbid=('"',), col0=True, blank_around=True, family="md"),
                             Form("xml", "block", "<!--", "-->", forbid=("--", ), col0=True, blank_around=True, family="html", trailing_code=False)],
                      code=["Some paragraph text.", "# Heading", "- item one", "- item two"],
                      decoys=["Inline `<block name=decoy%d>` code and `</block>`.", "```\n<block name=\"decoy%d\">\n</block>\n```"],
